@@ -192,12 +192,50 @@ def _args_subst(b, t, subst):
     return out
 
 
+def root_local(b, o, defs):
+    """Local at the root of a chain of borrows / reborrows / deref adaptors."""
+    cur = o
+    for _ in range(8):
+        if 'l' not in cur:
+            return None
+        d = defs.get(cur['l'])
+        if d is None:
+            return cur['l']
+        x = d[1]
+        if x.get('k') == 'call':
+            if re.search(r'(Deref::deref|DerefMut::deref_mut|AsRef::as_ref|AsMut::as_mut|as_slice|as_mut_slice|Borrow::borrow|BorrowMut::borrow_mut|by_ref)$', x['f'].get('fn', '')) and x['args']:
+                cur = x['args'][0]
+                continue
+            return cur['l']
+        r = x['r']
+        if r['k'] in ('ref', 'copyderef', 'rawptr'):
+            if any(e.startswith('.') for e in r['p']['pr']):
+                return r['p']['l']
+            cur = dict(l=r['p']['l'], pr=[])
+            continue
+        if r['k'] in ('use', 'cast') and 'l' in r['o'][0]:
+            cur = r['o'][0]
+            continue
+        return cur['l']
+    return cur.get('l')
+
+
 def analyse_writer(f, b, depth=0, seen=None, subst=None):
     side = Side()
     seen = seen or set()
     dom = b.dominators()
     defs = single_defs(b)
     loops = loop_blocks(b)
+    # staging buffers: local (non-parameter) values used as the writer of write calls; writing such a buffer out later with
+    # write_all() emits exactly the staged bytes, which are already accounted for term by term
+    staged = set()
+    for i, t in b.calls(r'WriteBytesExt::write_|io::Write::write_all$|ser::Serialize::to_writer$|to_writer'):
+        fn = t['f'].get('fn', '')
+        widx = 0 if ('WriteBytesExt' in fn or fn.endswith('io::Write::write_all')) else 1
+        if len(t['args']) > widx:
+            rl = root_local(b, t['args'][widx], defs)
+            if rl is not None and rl > b.r['nargs'] and re.match(r'std::vec::Vec<u8>|bytes::BytesMut', b.r['locals'][rl]['ty']):
+                staged.add(rl)
     for i, t in b.calls():
         fn = t['f'].get('fn', '')
         last = fn.split('::')[-1]
@@ -207,6 +245,8 @@ def analyse_writer(f, b, depth=0, seen=None, subst=None):
             side.add(guard_of(b, i, dom, defs, loops), ('const', FIXED[last]))
         elif fn.endswith('io::Write::write_all'):
             a = t['args'][1]
+            if root_local(b, a, defs) in staged:
+                continue
             n = array_len_of(b, a, defs)
             if n is not None:
                 side.add(guard_of(b, i, dom, defs, loops), ('const', n))
@@ -389,13 +429,18 @@ def array_fields(f):
 def compare(w, l):
     """Compare the two sides variant by variant.
     Returns (definite mismatches, undecided) — a difference that involves value-dependent (conditional) terms is undecided."""
+    def bool_conds(side):
+        return set(c for (arm, conds, inloop), term in side.terms for c in conds if c.startswith('if['))
+    shared = bool_conds(w) & bool_conds(l)
+
     def items_of(side):
         out = []
         for (arm, conds, inloop), term in side.terms:
-            # enum-variant conditions (`Adt=Variant`) are structural guards that both sides spell the same way;
-            # boolean conditions (`if[...]`) are value-dependent
-            econds = frozenset(c for c in conds if not c.startswith('if['))
-            bconds = [c for c in conds if c.startswith('if[')]
+            # enum-variant conditions (`Adt=Variant`) are structural guards that both sides spell the same way; a boolean
+            # condition is structural too when the very same test (same operands' origins, same edge) occurs on both
+            # sides (`if version == V6` in to_writer and in write_len); other boolean conditions are value-dependent
+            econds = frozenset(c for c in conds if not c.startswith('if[') or c in shared)
+            bconds = [c for c in conds if c.startswith('if[') and c not in shared]
             for v in (arm or ('',)):
                 out.append((v, econds, len(bconds) > 0, inloop, term))
         return out
